@@ -339,3 +339,15 @@ impl Prop for C07 {
         vec!["read-overlapped-reloads", "held-guard", "copied", "watcher", "bracket"]
     }
 }
+
+/// A polling-reader race reused by C06: `ReloadWatcher::reloaded(); read()` against a stream of reloads,
+/// with a guard-holding reader widening the window between publication and installation.
+pub fn watcher_race(reloads: u16, size: u8) -> Option<(String, String)> {
+    let c = Case { size, readers: vec![Style::Watcher, Style::Held { yields: 3 }, Style::Watcher, Style::Held { yields: 1 }], reloads };
+    let mut out = Outcome::new();
+    match size {
+        0 => run_sized::<W8>(&c, &mut out),
+        _ => run_sized::<W512>(&c, &mut out),
+    }
+    out.violation.map(|v| (v.sig, v.what))
+}
